@@ -2554,6 +2554,16 @@ def lower_bound(nn, q, t, facts):
                 return lower_bound(nn, q, inl, facts2)
     if head(t) == "ite":
         return min(lower_bound(nn, q, t[2], facts), lower_bound(nn, q, t[3], facts))
+    if head(t) == "or" and len(t[1]) >= 2:
+        # a or b  is a when a is non-zero, else b: an integer-valued a that is >= 0 contributes only values >= 1
+        *init_, last_ = t[1]
+        lbs = []
+        for a_ in init_:
+            la = lower_bound(nn, q, a_, facts)
+            a0 = strip(a_)
+            integral = (head(a0) == "bin" and a0[1] == "//") or (head(a0) == "call" and strip(a0[1]) in (("glob", "builtins.int"), ("glob", "builtins.len"), ("glob", "math.floor"), ("glob", "math.ceil")))
+            lbs.append(max(la, 1) if (la >= 0 and integral) else (la if la > 0 else ninf))
+        return min(lbs + [lower_bound(nn, q, last_, facts)])
     if head(t) == "bin":
         a, b = lower_bound(nn, q, t[2], facts), lower_bound(nn, q, t[3], facts)
         if t[1] == "+":
@@ -2840,8 +2850,17 @@ def check_symdel_pairs(r, rule, cd_modes):
         mname = MODE_NAME[mode]
         w = wh(r, q, sites[0][1].node) if sites else wh(r, q, nn.summary(q).func.node)
         U = nn.unwrap
-        ok_pair = len(sites) == 2 and U(sites[0][1].a) == U(sites[1][1].b) and U(sites[0][1].b) == U(sites[1][1].a) and strip(sites[0][1].d) == strip(sites[1][1].d) \
-            and sites[0][1].guards == sites[1][1].guards
+        # (a conditional on the way - e.g. two ways of computing the same distance - doubles the sites: every site then needs its mirror image
+        #  under the same guards)
+        rest_ = [x[1] for x in sites]
+        ok_pair = len(rest_) >= 2 and len(rest_) % 2 == 0
+        while ok_pair and rest_:
+            p_ = rest_.pop(0)
+            m_ = next((k for k, o_ in enumerate(rest_) if U(p_.a) == U(o_.b) and U(p_.b) == U(o_.a) and strip(p_.d) == strip(o_.d) and p_.guards == o_.guards), None)
+            if m_ is None:
+                ok_pair = False
+            else:
+                rest_.pop(m_)
         if not sites:
             rep.require(False, f"{q}: no triplet insertion found in the one-collection branch (moved out of reach of the site analysis); cannot decide [{rule}]")
             continue
